@@ -83,7 +83,7 @@ func genFilterExpr(g *xast.G) *xast.Expr {
 
 func TestC02(t *testing.T) {
 	runWitnesses(t, "C02")
-	runProp(t, "diff", 20000, 1000000, func(t *rapid.T) {
+	runProp(t, "diff", 45000, 1000000, func(t *rapid.T) {
 		kind := rapid.IntRange(0, 2).Draw(t, "c02Kind")
 		c, p := genDocCase(t, caseOpts{cfg: c02DocCfg(), vars: true, nodeVars: true}, func(g *xast.G, p *prepared) *xast.Expr {
 			if kind == 2 {
@@ -141,7 +141,7 @@ func TestC02(t *testing.T) {
 			t.Fatalf("C02/diff: %v", err)
 		}
 	})
-	runProp(t, "meta", 2500, 100000, func(t *rapid.T) {
+	runProp(t, "meta", 7500, 100000, func(t *rapid.T) {
 		ev := xmodel.Gen(t, c02DocCfg())
 		g := &xast.G{T: t, Env: xast.GenEnv{ElemNames: []string{"a", "b", "c"}, AttrNames: []string{"id", "k"}, NoNSAxis: true}}
 		ax := g.Axis()
